@@ -542,7 +542,7 @@ def subscript(ip: Any, obj: Any, idx: Any) -> Any:
         for j in range(n - 2, -1, -1):
             v = V.ite(SBool(k == j), obj[j], v)
         return v
-    if isinstance(obj, dict) and isinstance(idx, Sym):
+    if isinstance(obj, dict) and (isinstance(idx, Sym) or (isinstance(idx, tuple) and V.contains_sym(idx))):
         cands = [(k, v) for k, v in obj.items() if V._eq(idx, k) is not False]
         hit = V.Or(*[V.eq(idx, k) for k, _ in cands]) if cands else False
         if not S.fork(hit):
@@ -632,6 +632,14 @@ def del_subscript(ip: Any, obj: Any, idx: Any) -> None:
         if h is not None:
             h(ip.S, obj, idx)
             return
+    if isinstance(obj, dict) and (isinstance(idx, Sym) or (isinstance(idx, tuple) and V.contains_sym(idx))):
+        # dict of concrete cardinality with symbolic keys (same model as store_subscript): delete the first key equal to `idx`
+        for k in list(obj):
+            c = V._eq(idx, k)
+            if c is True or (c is not False and ip.S.fork(c)):
+                del obj[k]
+                return
+        raise raise_(ip, KeyError, idx)
     if V.contains_sym(idx):
         raise Unsupported("del with symbolic key on concrete container")
     try:
